@@ -119,6 +119,34 @@ def _verdict(messages):
     return 'INCONCLUSIVE', '; '.join('%s %s' % (m.state.name, m.message) for m in messages)[:300]
 
 
+def _excluding_wrapper(module, fn, exclusions, label):
+    """known-finding regions are excluded by a generated wrapper harness (CrossHair reads contracts from source files):
+    same signature, returns True inside an excluded region, otherwise calls the real harness"""
+    import hashlib  # pylint: disable=import-outside-toplevel
+    import importlib.util  # pylint: disable=import-outside-toplevel
+    verif = os.path.dirname(os.path.dirname(os.path.abspath(__file__)))
+    directory = os.path.join(verif, 'build', 'wrappers')
+    os.makedirs(directory, exist_ok=True)
+    sig = inspect.signature(fn)
+    params = ', '.join('%s: %s' % (name, getattr(par.annotation, '__name__', None) if not str(par.annotation).startswith(
+        'typing.') else str(par.annotation)) for name, par in sig.parameters.items())
+    call = ', '.join(sig.parameters)
+    conditions = ' or '.join('(%s)' % expr[len('not ('):-1] if expr.startswith('not (') else '(not (%s))' % expr
+                             for expr in exclusions)
+    name = 'w_' + hashlib.sha1((module.__name__ + fn.__name__ + label).encode()).hexdigest()[:12]
+    path = os.path.join(directory, name + '.py')
+    source = ('import typing\nimport %s as _m\n\n\ndef %s(%s) -> bool:\n    """\n    post: _\n    """\n'
+              '    P = _m.P\n    if %s:\n        return True\n    return _m.%s(%s)\n') % (
+                  module.__name__, fn.__name__, params, conditions, fn.__name__, call)
+    with open(path, 'w') as handle:
+        handle.write(source)
+    spec = importlib.util.spec_from_file_location(name, path)
+    wrapper_module = importlib.util.module_from_spec(spec)
+    sys.modules[name] = wrapper_module
+    spec.loader.exec_module(wrapper_module)
+    return getattr(wrapper_module, fn.__name__)
+
+
 def _doc_with_pre(fn, extra_pre):
     lines = ['    pre: %s' % expr for expr in extra_pre]
     lines.append('    post: _')
@@ -197,7 +225,8 @@ def shard_worker(shard_d, conn):
         fn = getattr(module, shard_d['fn'])
         if hasattr(module, 'setup'):
             module.setup(module.P)
-        fn.__doc__ = _doc_with_pre(fn, shard_d['extra_pre'])
+        if shard_d['extra_pre']:
+            fn = _excluding_wrapper(module, fn, shard_d['extra_pre'], shard_d['label'])
         messages, counter = _analyze(fn, shard_d['timeout'], shard_d['path_timeout'])
         verdict, message = _verdict(messages)
         result.update(verdict=verdict, message=message[:3000], paths=int(counter.get('num_paths', 0)))
